@@ -10,6 +10,26 @@ sys.path.insert(0, os.path.dirname(os.path.abspath(__file__)))
 import common  # noqa: E402
 
 
+def descendants(pid):
+    """pids of all live descendants of pid (from /proc)"""
+    kids = {}
+    for d in os.listdir('/proc'):
+        if d.isdigit():
+            try:
+                with open('/proc/%s/stat' % d) as f:
+                    st = f.read()
+                ppid = int(st.rsplit(')', 1)[1].split()[1])
+                kids.setdefault(ppid, []).append(int(d))
+            except (OSError, ValueError, IndexError):
+                pass
+    out, todo = [], [pid]
+    while todo:
+        for c in kids.get(todo.pop(), []):
+            out.append(c)
+            todo.append(c)
+    return out
+
+
 def main():
     if os.environ.get('VERIF_DEBUG_DUMP'):
         import faulthandler
@@ -40,7 +60,31 @@ def main():
         if hasattr(mod, 'replay'):
             sys.exit(mod.replay(ctx, args.replay))
         sys.exit(common.generic_replay(args.replay))
-    sys.exit(mod.check(ctx))
+    # a check must end: when it runs out of its wall-clock budget (a code change can make whole input families slow without tripping
+    # the per-case deadlines) it reports that the property is no longer shown to hold, instead of leaving the caller with a bare timeout
+    budget = float(os.environ.get('VERIF_BUDGET_S') or (1500 if args.tier == 'quick' else 5 * 3600))
+
+    def out_of_budget():
+        path = common.write_replay(pid, 'broken-tie', {
+            'property': pid, 'seed': seed, 'tier': args.tier, 'theorems_no_longer_checked': [], 'correspondences_broken': [],
+            'note': 'the check did not finish within its wall-clock budget of %d s: the correspondence between model and implementation could not be '
+                    're-established on this tree (some input family takes far longer than on the pinned commit); no concrete failing input was identified' % budget})
+        sys.stdout.write('VIOLATION property=%s replay=%s no-failing-input-found\n' % (pid, path))
+        sys.stdout.flush()
+        for child in descendants(os.getpid()):
+            try:
+                os.kill(child, signal.SIGKILL)
+            except OSError:
+                pass
+        os._exit(1)
+    import signal
+    import threading
+    t = threading.Timer(budget, out_of_budget)
+    t.daemon = True
+    t.start()
+    rc = mod.check(ctx)
+    t.cancel()
+    sys.exit(rc)
 
 
 if __name__ == '__main__':
